@@ -50,8 +50,8 @@ LEVEL_NOTE = ("Trusted: Coq kernel + vm_compute; the hand-written association-li
               "(ints within 64 bits, str-keyed dicts). Dictionary keys and field names are text. No axioms (Print Assumptions: closed).")
 DESIGN_REF = "DESIGN.md section 8, C02"
 COQ_IMPORTS = "From Orso Require Import Model.C02."
-COQ_CHECKS = {"row": "c02_row_check", "frame": "c02_frame_check", "session": "c02_session_check", "source": "c02_source_check"}
-COQ_SHOW = {"row": "c02_row_show", "frame": "c02_frame_show", "session": "c02_session_show", "source": "c02_source_show"}
+COQ_CHECKS = {"row": "c02_row_check", "frame": "c02_frame_check", "session": "c02_session_check", "source": "c02_source_check", "producer": "c02_producer_check"}
+COQ_SHOW = {"row": "c02_row_show", "frame": "c02_frame_show", "session": "c02_session_show", "source": "c02_source_show", "producer": "c02_producer_show"}
 RULE = ("row cases: field list (0..6 names, duplicates, confusable/Unicode/empty names) x dictionary (sub/superset of the fields, shuffled "
         "insertion order, values of every kind incl. None/NaN/-0.0/nested) x looked-up names present and absent, run through "
         "Row.create_class(fields)(dict) (also with reversed insertion order), DataFrame(rows=[], schema=fields).append(dict), the five views "
@@ -60,6 +60,7 @@ RULE = ("row cases: field list (0..6 names, duplicates, confusable/Unicode/empty
         "DataFrame(dicts), DataFrame(rows=[], schema)) - mostly over the same name list - and use every handle after the others exist; "
         "sources: the records handed to DataFrame(...) through each of 9 carrier classes (containers, one-shot iterators, readers over "
         "read-once state, a wrapper round a generator), with records read from the object before and the object used again afterwards; "
+        "producers: generators that keep editing the record objects they have handed over while DataFrame(...) is still reading; "
         "exhaustive over the stated "
         "small scope, then random; a case is non-trivial when some field/column receives a non-None value from a dictionary; distinct by canonical JSON")
 TRUSTED = [
@@ -999,7 +1000,193 @@ def _shrink_source(case):
             yield dict(case, pool=case["pool"][:i] + [["int", i + 1]] + case["pool"][i + 1:])
 
 
+# ------------------------------------------------------------------ lazily produced records
+# {"kind": "producer", "pool": [...], "lazy": "generator" | "wrapped" | "lazyobj", "mapping": ...,
+#  "actions": [["new", items] | ["set", r, key, vi] | ["del", r, key] | ["yield", r], ...]}
+#   a generator that creates record objects, hands them to DataFrame(...) and keeps touching them between the
+#   constructor's reads (annotate the previous record, refill one buffer, delete a key).
+LAZY = ["generator", "wrapped", "lazyobj"]
+
+
+def _valid_producer(actions):
+    n = 0
+    for a in actions:
+        if a[0] == "new":
+            n += 1
+        elif a[0] in ("set", "del", "yield"):
+            if not (0 <= a[1] < n):
+                return False
+        else:
+            return False
+    return True
+
+
+def _observe_producer(case):
+    from orso.dataframe import DataFrame
+    from orso.row import Row
+
+    if not _valid_producer(case["actions"]):
+        raise ValueError("invalid producer")
+    pool = _Pool(case["pool"])
+    mapping = case.get("mapping", "dict")
+
+    def produce():
+        store = []
+        for a in case["actions"]:
+            if a[0] == "new":
+                store.append(_mkrecord(a[1], pool, mapping))
+            elif a[0] == "set":
+                store[a[1]][a[2]] = pool.objs[a[3]]
+            elif a[0] == "del":
+                store[a[1]].pop(a[2], None)
+            else:
+                yield store[a[1]]
+
+    class _LazyObj:
+        def __iter__(self):
+            return produce()
+
+    lazy = case.get("lazy", "generator")
+    src = produce() if lazy == "generator" else _Wrapped(produce()) if lazy == "wrapped" else _LazyObj()
+    try:
+        df = DataFrame(src)
+        cols = tuple(df.column_names)
+        n = df.rowcount
+        rs = list(df)
+        if n != len(rs) or len(df) != n or df.shape != (n, len(cols)):
+            raise ValueError("rowcount/shape/len disagree with iteration")
+        if not all(isinstance(r, Row) and tuple(r._fields) == cols for r in rs):
+            raise TypeError("a stored row is not a Row over the frame's columns")
+        return {"frame": [[_name(c) for c in cols], [[pool.vid(x) for x in tuple(r)] for r in rs],
+                          [[[_name(k), pool.vid(v)] for k, v in r.as_dict.items()] for r in rs],
+                          [len(r.as_map) for r in rs]]}
+    except Exception as e:
+        return {"frame": _exc(e)}
+
+
+def _oracle_producer(case, obs):
+    """Columns from the first dictionary as it was when it was handed over; one row per dictionary handed over, as
+    wide as the column list, holding that dictionary's values (as it was when handed over) by name."""
+    pool = _Pool(case["pool"])
+    out = obs["frame"]
+    if _is_raise(out):
+        return f"DataFrame(lazily produced records) must not raise, raised {out[1]}"
+    store, handed = [], []
+    for a in case["actions"]:
+        if a[0] == "new":
+            store.append(dict((k, pool.ids[vi]) for k, vi in a[1]))
+        elif a[0] == "set":
+            store[a[1]][a[2]] = pool.ids[a[3]]
+        elif a[0] == "del":
+            store[a[1]].pop(a[2], None)
+        else:
+            handed.append(dict(store[a[1]]))
+    cols = list(handed[0]) if handed else []
+    rows = [[D.get(c, 0) for c in cols] for D in handed]
+    if out[0] != cols:
+        return f"columns must be those of the first dictionary as it was when it was read, {cols}, got {out[0]}"
+    if len(out[1]) != len(handed):
+        return f"exactly one row per dictionary handed over required ({len(handed)}), got {len(out[1])}"
+    for j, r in enumerate(out[1]):
+        if len(r) != len(cols):
+            return f"row {j} must be as wide as the column list {cols}, got {r}"
+    if out[1] != rows:
+        return f"rows must be {rows} (each record's values, as it was when handed over, at its columns; 0=None), got {out[1]}"
+    for j, (want, got, nmap) in enumerate(zip(rows, out[2], out[3])):
+        if dict((k, v) for k, v in got) != dict(zip(cols, want)) or len(got) != len(cols) or nmap != len(cols):
+            return f"as_dict / as_map of row {j} must pair every column with its value {dict(zip(cols, want))}, got {got} ({nmap} pairs)"
+    return None
+
+
+def _producer_to_coq(case, obs):
+    pool = _Pool(case["pool"])
+    acts = []
+    for a in case["actions"]:
+        if a[0] == "new":
+            acts.append("(PNew %s)" % _zdict(a[1], pool))
+        elif a[0] == "set":
+            acts.append("(PSet %s %s %s)" % (L.nat(a[1]), L.text(a[2]), L.Z(pool.ids[a[3]])))
+        elif a[0] == "del":
+            acts.append("(PDel %s %s)" % (L.nat(a[1]), L.text(a[2])))
+        else:
+            acts.append("(PYield %s)" % L.nat(a[1]))
+    out = obs["frame"]
+    res = _res(out, lambda o: "(%s, %s, %s)" % (_keys(o[0]), _zss(o[1]), _kvss(o[2])))
+    return ("producer", "((%s : list (pact key Z)), (%s : result (list key * list (list Z) * list (list (key * Z)))))" % (L.lst(acts), res))
+
+
+def _producer_exhaustive(tier):
+    """Small producers over the names a, b (+ c as the key that appears later); _XPOOL values."""
+    recs = [[["a", 1], ["b", 2]], [["b", 2], ["a", 1]], [["a", 1]], [], [["a", 0], ["b", 3]]]
+    muts = lambda r: [[], [["set", r, "c", 3]], [["set", r, "a", 3]], [["del", r, "a"]], [["del", r, "b"]],
+                      [["del", r, "a"], ["set", r, "a", 2]], [["set", r, "c", 3], ["del", r, "b"]]]
+    n = 0
+    for d1 in recs:
+        for d2 in (recs if tier == "thorough" else recs[:3]):
+            for m in muts(0):
+                # the previous record is touched once the next one exists, before / after the next one is handed over
+                for acts in ([["new", d1], ["yield", 0], ["new", d2]] + m + [["yield", 1]],
+                             [["new", d1], ["new", d2], ["yield", 0], ["yield", 1]] + m + [["yield", 0]] * (n % 2)):
+                    n += 1
+                    yield {"kind": "producer", "pool": _XPOOL, "lazy": LAZY[n % 3], "mapping": "dict", "actions": acts}
+        for m1 in muts(0):
+            for m2 in (muts(0) if tier == "thorough" else muts(0)[:4]):
+                # one buffer dictionary refilled for every record; also touched before it is first handed over
+                n += 1
+                yield {"kind": "producer", "pool": _XPOOL, "lazy": LAZY[n % 3], "mapping": "dict",
+                       "actions": [["new", d1], ["yield", 0]] + m1 + [["yield", 0]] + m2 + [["yield", 0]]}
+            n += 1
+            yield {"kind": "producer", "pool": _XPOOL, "lazy": LAZY[n % 3], "mapping": "dict",
+                   "actions": [["new", d1]] + m1 + [["yield", 0]] + m1}
+
+
+def _random_producer(rng):
+    names = _rand_names(rng)[:4] or ["a"]
+    pool = [_rand_value(rng) for _ in range(rng.randint(1, 6))]
+    acts, n, yielded = [], 0, []
+    for _ in range(rng.randint(2, 12)):
+        r = rng.random()
+        if n == 0 or r < 0.25:
+            acts.append(["new", _rand_dict(rng, names, len(pool))])
+            n += 1
+            if rng.random() < 0.7:
+                acts.append(["yield", n - 1])
+                yielded.append(n - 1)
+        elif r < 0.5:
+            tgt = rng.choice(yielded) if yielded and rng.random() < 0.8 else rng.randrange(n)
+            acts.append(["set", tgt, rng.choice(names + ["extra"]), rng.randrange(len(pool))])
+        elif r < 0.65:
+            tgt = rng.choice(yielded) if yielded and rng.random() < 0.8 else rng.randrange(n)
+            acts.append(["del", tgt, rng.choice(names)])
+        else:
+            tgt = rng.randrange(n)
+            acts.append(["yield", tgt])
+            yielded.append(tgt)
+    return {"kind": "producer", "pool": pool, "lazy": rng.choice(LAZY), "mapping": _rand_mapping(rng), "actions": acts}
+
+
+def _shrink_producer(case):
+    acts = case["actions"]
+    for i in reversed(range(len(acts))):
+        if acts[i][0] == "new":
+            continue  # would renumber the records
+        yield dict(case, actions=acts[:i] + acts[i + 1:])
+    for i, a in enumerate(acts):
+        if a[0] == "new":
+            for j in range(len(a[1])):
+                yield dict(case, actions=acts[:i] + [["new", a[1][:j] + a[1][j + 1:]]] + acts[i + 1:])
+    if case.get("lazy", "generator") != "generator":
+        yield dict(case, lazy="generator")
+    if case.get("mapping", "dict") != "dict":
+        yield dict(case, mapping="dict")
+    for i, sp in enumerate(case["pool"]):
+        if sp != ["int", i + 1]:
+            yield dict(case, pool=case["pool"][:i] + [["int", i + 1]] + case["pool"][i + 1:])
+
+
 def observe(case):
+    if case["kind"] == "producer":
+        return _observe_producer(case)
     if case["kind"] == "source":
         return _observe_source(case)
     if case["kind"] == "session":
@@ -1108,6 +1295,8 @@ def _oracle_frame(case, obs):
 
 
 def oracle(case, obs):
+    if case["kind"] == "producer":
+        return _oracle_producer(case, obs)
     if case["kind"] == "source":
         return _oracle_source(case, obs)
     if case["kind"] == "session":
@@ -1154,6 +1343,8 @@ def _zdict(items, pool):
 
 
 def to_coq(case, obs):
+    if case["kind"] == "producer":
+        return _producer_to_coq(case, obs)
     if case["kind"] == "source":
         return _source_to_coq(case, obs)
     if case["kind"] == "session":
@@ -1179,6 +1370,16 @@ def to_coq(case, obs):
 # ------------------------------------------------------------------ evidence helpers
 def nontrivial_key(case, obs):
     pool = _Pool(case["pool"])
+    if case["kind"] == "producer":
+        # non-trivial: a record that has been handed over is touched while the constructor is still reading
+        seen, touched = set(), False
+        for a in case["actions"]:
+            if a[0] == "yield":
+                seen.add(a[1])
+            elif a[0] in ("set", "del") and a[1] in seen:
+                touched = True
+        ys = [i for i, a in enumerate(case["actions"]) if a[0] == "yield"]
+        return json.dumps(case, sort_keys=True) if touched and len(ys) >= 2 else None
     if case["kind"] == "source":
         # non-trivial: a frame is built from an object that delivers a dictionary with a non-None value
         fed = any(pool.ids[vi] != 0 for d in case["dicts"] for _, vi in d)
@@ -1201,6 +1402,23 @@ def nontrivial_key(case, obs):
 def classify(case, obs):
     yield case["kind"]
     yield "mapping:" + case.get("mapping", "dict")
+    if case["kind"] == "producer":
+        yield "lazy:" + case.get("lazy", "generator")
+        seen = set()
+        ny = sum(1 for a in case["actions"] if a[0] == "yield")
+        k = 0
+        for a in case["actions"]:
+            yield "pact:" + a[0]
+            if a[0] == "yield":
+                if a[1] in seen:
+                    yield "same-record-object-handed-over-again"
+                seen.add(a[1])
+                k += 1
+            elif a[0] in ("set", "del") and a[1] in seen:
+                yield "handed-over-record-touched-" + ("after-the-last-yield" if k == ny else "between-reads")
+                if a[1] == next((b[1] for b in case["actions"] if b[0] == "yield"), None):
+                    yield "first-record-touched-after-it-was-read"
+        return
     if case["kind"] == "source":
         yield "carrier:" + case["carrier"]
         yield "source-dicts=%d" % min(len(case["dicts"]), 4)
@@ -1263,6 +1481,15 @@ def classify(case, obs):
 
 # ------------------------------------------------------------------ generators
 def corpus():
+    # round 5 (seeded change r5s2): the producer touches the first record again after it was read
+    yield {"kind": "producer", "pool": [["int", 0], ["str", "n0"], ["int", 1], ["str", "n1"], ["int", 2], ["str", "n2"]], "lazy": "generator",
+           "mapping": "dict", "actions": [["new", [["id", 0], ["name", 1]]], ["yield", 0], ["new", [["id", 2], ["name", 3]]], ["set", 0, "next_id", 2],
+                                           ["yield", 1], ["new", [["id", 4], ["name", 5]]], ["set", 1, "next_id", 4], ["yield", 2]]}
+    yield {"kind": "producer", "pool": [["int", 0], ["int", 1], ["int", 2], ["int", 10], ["int", 20]], "lazy": "generator", "mapping": "dict",
+           "actions": [["new", []], ["set", 0, "a", 0], ["yield", 0], ["set", 0, "a", 1], ["set", 0, "extra", 3], ["yield", 0],
+                       ["set", 0, "a", 2], ["set", 0, "extra", 4], ["yield", 0]]}
+    yield {"kind": "producer", "pool": [["int", 1], ["int", 2], ["int", 3], ["int", 4]], "lazy": "lazyobj", "mapping": "dict",
+           "actions": [["new", [["a", 0], ["b", 1]]], ["yield", 0], ["del", 0, "b"], ["new", [["a", 2], ["b", 3]]], ["yield", 1]]}
     # round 3 (seeded change r3s1): the records arrive through an object that is not its own iterator yet reads on
     for carrier in ("reader", "drain", "wrapped"):
         yield {"kind": "source", "pool": [["str", "alpha"], ["int", 1], ["str", "beta"], ["int", 2], ["str", "gamma"], ["int", 4], ["bool", True]],
@@ -1353,6 +1580,9 @@ def exhaustive(tier):
         # the object that delivers the dictionaries, read from before and used again afterwards
         for c in _source_exhaustive(tier):
             yield c
+        # records produced lazily by a generator that keeps touching what it has handed over
+        for c in _producer_exhaustive(tier):
+            yield c
 
     return it(), (f"row: all field lists of <= {maxf} names over the 3-name alphabet {{a,b,c}} x all dictionaries over that alphabet "
                   f"(every subset, every insertion order, each value its own or None; 79) x 6 lookups; frame: all sequences of <= 2 "
@@ -1366,7 +1596,11 @@ def exhaustive(tier):
                   + "; sources: each of the 9 carrier classes (list, tuple, dict values view, generator, list iterator, map, reader over a read "
                     "position, queue drain, wrapper round a generator) x record sequences (empty, the 13 single dictionaries over {a,b}, "
                   + ("all 169 pairs" if tier == "thorough" else "25 pairs") + ", three longer ones) x call histories "
-                  + ("{frame; frame,frame; next,frame,list; list,frame; next,next,frame,next,frame}" if tier == "thorough" else "{frame,frame; next,frame,list; list,frame}"))
+                  + ("{frame; frame,frame; next,frame,list; list,frame; next,next,frame,next,frame}" if tier == "thorough" else "{frame,frame; next,frame,list; list,frame}")
+                  + "; producers: generators over 5 small records x 7 edits (none, new key, overwrite, delete a / b, delete+reinsert, add+delete) of a "
+                    "record already handed over - previous record edited before / after the next one is handed over, one buffer object handed over "
+                    "three times with an edit between each, record edited before its first and after its last hand-over - through a plain "
+                    "generator, a wrapper round it and an object whose __iter__ starts it")
 
 
 _PLAIN = ["a", "b", "c", "d", "e", "f", "g"]
@@ -1456,15 +1690,23 @@ def generate(rng, tier):
         yield _random_session(rng)
     for i in range(400 if tier == "quick" else 8000):
         yield _random_source(rng)
+    for i in range(300 if tier == "quick" else 6000):
+        yield _random_producer(rng)
 
 
 def search(rng):
     while True:
         r = rng.random()
+        if r > 0.88:
+            yield _random_producer(rng)
+            continue
         yield _random_source(rng) if r < 0.15 else _random_session(rng) if r < 0.4 else _random_frame(rng) if r < 0.6 else _random_row(rng)
 
 
 def shrink(case):
+    if case["kind"] == "producer":
+        yield from _shrink_producer(case)
+        return
     if case["kind"] == "source":
         yield from _shrink_source(case)
         return
